@@ -219,8 +219,33 @@ def strip_coq_comments(t):
     return "".join(out)
 
 
-def grep_gate():
-    """No Admitted/admit/Axiom/Parameter/... anywhere; Variable/Hypothesis only inside a Section."""
+def dep_closure(pid):
+    """.v files Props/<pid>.v transitively depends on (from coq_makefile's dependency file)"""
+    dep = os.path.join(COQ, ".Makefile.d")
+    if not os.path.exists(dep):
+        return None
+    g = {}
+    for line in open(dep).read().replace("\\\n", " ").split("\n"):
+        if ":" not in line:
+            continue
+        lhs, rhs = line.split(":", 1)
+        tgt = [x for x in lhs.split() if x.endswith(".vo")]
+        if not tgt:
+            continue
+        g[tgt[0][:-1]] = [x[:-1] for x in rhs.split() if x.endswith(".vo") and not x.startswith("/")]
+    seen, todo = set(), ["Props/%s.v" % pid]
+    while todo:
+        f = todo.pop()
+        if f in seen:
+            continue
+        seen.add(f)
+        todo += g.get(f, [])
+    return seen
+
+
+def grep_gate(only=None):
+    """No Admitted/admit/Axiom/Parameter/... ; Variable/Hypothesis only inside a Section.
+    only = set of relative .v paths to look at (a property's dependency closure); None = the whole development."""
     bad = []
     for d in COQ_SUBDIRS:
         dd = os.path.join(COQ, d)
@@ -228,6 +253,8 @@ def grep_gate():
             continue
         for f in sorted(os.listdir(dd)):
             if not f.endswith(".v"):
+                continue
+            if only is not None and (d + "/" + f) not in only:
                 continue
             txt = strip_coq_comments(open(os.path.join(dd, f)).read())
             depth = 0
@@ -265,7 +292,7 @@ def coq_props(pid, extra_targets=()):
         t0 = time.time()
         rc, out, err = coq_make(["Props/%s.vo" % pid] + list(extra_targets))
         dt = time.time() - t0
-    gate = grep_gate()
+    gate = grep_gate(dep_closure(pid))
     res = {
         "ok": rc == 0 and not gate,
         "theorems": theorems,
